@@ -16,12 +16,14 @@ package state
 import (
 	"bytes"
 	"crypto/sha256"
+	"encoding/binary"
 	"encoding/hex"
 	"encoding/json"
 	"errors"
 	"fmt"
 	"reflect"
 	"sort"
+	"strconv"
 	"strings"
 	"testing"
 	"unsafe"
@@ -53,26 +55,37 @@ type c12AcctSpec struct {
 type c12TargetSpec struct {
 	name  string
 	accts []c12AcctSpec
+	// tiers in which every dependency-closed pre-population is explored ("" = both); in the other tier(s) the
+	// target is explored from an empty local store only (with and without foreign nodes). skipQuick drops the
+	// target from the quick tier altogether.
+	fullPrepop string
+	skipQuick  bool
 }
 
 func c12Specs() []c12TargetSpec {
 	shared := map[string]byte{"2": 1, "b": 2}
 	return []c12TargetSpec{
-		{"plain1", []c12AcctSpec{{key: "3a", nonce: 1}}},
-		{"one", []c12AcctSpec{{key: "3a", nonce: 1, slots: map[string]byte{"4": 7}, code: "c1"}}},
-		{"deepstorage", []c12AcctSpec{{key: "c0", nonce: 2, slots: map[string]byte{"a1": 1, "a9": 2, "c": 3}, code: "c1"}}},
-		{"ext", []c12AcctSpec{
+		{name: "plain1", accts: []c12AcctSpec{{key: "3a", nonce: 1}}},
+		{name: "one", accts: []c12AcctSpec{{key: "3a", nonce: 1, slots: map[string]byte{"4": 7}, code: "c1"}}},
+		{name: "deepstorage", accts: []c12AcctSpec{{key: "c0", nonce: 2, slots: map[string]byte{"a1": 1, "a9": 2, "c": 3}, code: "c1"}}},
+		{name: "ext", accts: []c12AcctSpec{
 			{key: "5a51", nonce: 1, slots: map[string]byte{"77a": 1, "77b": 2}},
 			{key: "5a5e", nonce: 2, code: "c2"},
 		}},
-		{"shared", []c12AcctSpec{
+		{name: "shared", accts: []c12AcctSpec{
 			{key: "1", nonce: 1, slots: shared, code: "c1"},
 			{key: "8", nonce: 2, slots: shared, code: "c1"},
 		}},
-		{"three", []c12AcctSpec{
+		{name: "three", fullPrepop: "thorough", accts: []c12AcctSpec{
 			{key: "0", nonce: 1},
 			{key: "70", nonce: 2, slots: map[string]byte{"9": 5}, code: "c1"},
 			{key: "7f", nonce: 3, slots: map[string]byte{"1": 1, "6": 2, "e": 3}, code: "c2"},
+		}},
+		{name: "four", fullPrepop: "never", skipQuick: true, accts: []c12AcctSpec{
+			{key: "2", nonce: 1, slots: map[string]byte{"3": 1, "d": 2}, code: "c1"},
+			{key: "94", nonce: 2, code: "c2"},
+			{key: "9b1", nonce: 3, slots: map[string]byte{"3": 1, "d": 2}, code: "c1"},
+			{key: "9b2", nonce: 4, slots: map[string]byte{"5": 9}},
 		}},
 	}
 }
@@ -563,7 +576,7 @@ func (w *c12World) whitebox() *c12Whitebox {
 		path := common.CopyBytes(req.FieldByName("path").Bytes())
 		wb.codePaths[h] = path
 		wb.codeData[h] = has
-		wb.codeReqs = append(wb.codeReqs, fmt.Sprintf("%x %v %v", h, has, parents))
+		wb.codeReqs = append(wb.codeReqs, string(h[:])+fmt.Sprint(has)+strings.Join(parents, ","))
 	}
 	sort.Strings(wb.codeReqs)
 	wb.queue = c12Field(sv, "queue").Interface().(*prque.Prque[int64, any]).Size()
@@ -593,11 +606,15 @@ func (w *c12World) whitebox() *c12Whitebox {
 		path := n.FieldByName("path").Bytes()
 		blob := n.FieldByName("blob").Bytes()
 		del := n.FieldByName("del").Bool()
-		g := fmt.Sprintf("%x/%x", owner, path)
+		g := string(owner[:]) + "/" + string(path)
 		if w.cfg.v.scheme == rawdb.HashScheme {
-			g = fmt.Sprintf("%x", hash)
+			g = string(hash[:])
 		}
-		ops = append(ops, op{g, i, fmt.Sprintf("%s del=%v %x %x %x", g, del, owner, path, sha256.Sum256(blob))})
+		d := "w"
+		if del {
+			d = "d"
+		}
+		ops = append(ops, op{g, i, d + string(owner[:]) + string(hash[:]) + c12Len(path) + string(path) + c12Len(blob) + string(blob)})
 	}
 	sort.Slice(ops, func(i, j int) bool {
 		if ops[i].group != ops[j].group {
@@ -611,7 +628,7 @@ func (w *c12World) whitebox() *c12Whitebox {
 	codes := c12Acc(mb.FieldByName("codes")).Interface().(map[common.Hash][]byte)
 	var cs []string
 	for h, b := range codes {
-		cs = append(cs, fmt.Sprintf("code %x %x", h, sha256.Sum256(b)))
+		cs = append(cs, "c"+string(h[:])+c12Len(b)+string(b))
 	}
 	sort.Strings(cs)
 	wb.batchOps = append(wb.batchOps, cs...)
@@ -635,45 +652,65 @@ type c12Key32 [32]byte
 func (w *c12World) key() (c12Key32, *c12Whitebox) {
 	wb := w.whitebox()
 	h := sha256.New()
+	var num [8]byte
+	put := func(tag byte, parts ...string) {
+		h.Write([]byte{tag})
+		for _, p := range parts {
+			binary.LittleEndian.PutUint64(num[:], uint64(len(p)))
+			h.Write(num[:])
+			h.Write([]byte(p))
+		}
+	}
 	for _, r := range wb.nodeReqs {
-		fmt.Fprintf(h, "N %x %v %d %x|", r.path, r.hasData, r.deps, r.parent)
+		d := "0"
+		if r.hasData {
+			d = "1"
+		}
+		put('N', r.path, d, strconv.FormatInt(r.deps, 10), r.parent)
 	}
 	for _, c := range wb.codeReqs {
-		fmt.Fprintf(h, "C %s|", c)
+		put('C', c)
 	}
-	fmt.Fprintf(h, "Q %d F %s B %d|", wb.queue, wb.fetches, wb.batchSize)
+	put('Q', strconv.Itoa(wb.queue), wb.fetches, strconv.FormatUint(wb.batchSize, 10))
 	for _, o := range wb.batchOps {
-		fmt.Fprintf(h, "M %s|", o)
+		put('M', o)
 	}
 	it := w.db.NewIterator(nil, nil)
 	for it.Next() {
-		fmt.Fprintf(h, "D %x=%x|", it.Key(), it.Value())
+		put('D', string(it.Key()), string(it.Value()))
 	}
 	it.Release()
-	wset := func(tag string, m map[string]bool) {
-		var ks []string
+	wset := func(tag byte, m map[string]bool) {
+		ks := make([]string, 0, len(m))
 		for k := range m {
 			ks = append(ks, k)
 		}
 		sort.Strings(ks)
-		fmt.Fprintf(h, "%s %x|", tag, ks)
+		put(tag, ks...)
 	}
-	hset := func(tag string, m map[common.Hash]bool) {
-		s := map[string]bool{}
+	hset := func(tag byte, m map[common.Hash]bool) {
+		ks := make([]string, 0, len(m))
 		for k := range m {
-			s[string(k[:])] = true
+			ks = append(ks, string(k[:]))
 		}
-		wset(tag, s)
+		sort.Strings(ks)
+		put(tag, ks...)
 	}
-	wset("iN", w.inflightN)
-	hset("iC", w.inflightC)
-	wset("eN", w.everN)
-	hset("eC", w.everC)
-	wset("pN", w.procN)
-	hset("pC", w.procC)
+	wset('i', w.inflightN)
+	hset('j', w.inflightC)
+	wset('e', w.everN)
+	hset('f', w.everC)
+	wset('p', w.procN)
+	hset('q', w.procC)
 	var k c12Key32
 	copy(k[:], h.Sum(nil))
 	return k, wb
+}
+
+func c12Len(b []byte) string {
+	var num [4]byte
+	binary.LittleEndian.PutUint32(num[:], uint32(len(b)))
+	return string(num[:])
 }
 
 // --- events ---------------------------------------------------------------
@@ -1091,23 +1128,40 @@ func (s *c12Search) expand(ops []string, w *c12World, k c12Key32, wb *c12Whitebo
 	if len(ops) > s.maxDepth {
 		s.maxDepth = len(ops)
 	}
-	// 1. misbehaving environment: refused, nothing changes
-	for _, ev := range w.selfLoopEvents(wb) {
+	// 1. misbehaving environment: refused, nothing changes. All refused events of this state are executed on
+	// the live world, each checked for its error; the state key is compared once afterwards, and on a
+	// difference the culprit is located by re-running them one by one.
+	sl := w.selfLoopEvents(wb)
+	for _, ev := range sl {
 		s.r.Transition(1)
 		s.r.Trace(1)
 		s.r.Eval(1)
-		err := mc.Safely(func() error { return w.apply(ev) })
-		if err == nil {
-			if k2, _ := w.key(); k2 != k {
-				err = fmt.Errorf("refused delivery %s changed the scheduler/membatch/database state", ev)
-			}
-		}
-		if err != nil {
+		if err := mc.Safely(func() error { return w.apply(ev) }); err != nil {
 			s.violation(append(append([]string{}, ops...), ev), err)
 			s.r.Outcome("violation")
 			return
 		}
-		s.r.Outcome("refused:" + ev[:strings.Index(ev, ":")])
+	}
+	s.r.OutcomeN("refused-deliveries", int64(len(sl)))
+	if k2, _ := w.key(); k2 != k {
+		for _, ev := range sl {
+			w1 := s.replay(ops, k)
+			if w1 == nil {
+				return
+			}
+			err := mc.Safely(func() error { return w1.apply(ev) })
+			if k1, _ := w1.key(); err == nil && k1 != k {
+				err = fmt.Errorf("refused delivery %s changed the scheduler/membatch/database state", ev)
+			}
+			if err != nil {
+				s.violation(append(append([]string{}, ops...), ev), err)
+				s.r.Outcome("violation")
+				return
+			}
+		}
+		s.violation(ops, fmt.Errorf("the refused deliveries %v together changed the scheduler/membatch/database state", sl))
+		s.r.Outcome("violation")
+		return
 	}
 	// 2. completion
 	final := w.s.Pending() == 0 && wb.batchLen == 0
@@ -1201,20 +1255,19 @@ func (c *c12Config) runReplay(r *mc.R, ops []string) {
 
 func c12Configs(r *mc.R) []*c12Config {
 	specs := c12Specs()
-	names := mc.Pick(r, []string{"plain1", "one", "deepstorage", "ext", "shared", "three"}, []string{"plain1", "one", "deepstorage", "ext", "shared", "three"})
 	var out []*c12Config
 	for _, sp := range specs {
-		use := false
-		for _, n := range names {
-			use = use || n == sp.name
-		}
-		if !use {
+		if sp.skipQuick && r.Quick() {
 			continue
 		}
+		full := sp.fullPrepop == "" || sp.fullPrepop == mc.Tier()
 		tg := c12Build(sp)
 		for _, scheme := range []string{rawdb.HashScheme, rawdb.PathScheme} {
 			v := c12NewView(tg, scheme)
 			for _, m := range v.closedSubsets() {
+				if !full && m != 0 {
+					continue
+				}
 				missing := 0
 				for c := 0; c < v.nclass; c++ {
 					if m&(1<<uint(c)) == 0 {
@@ -1230,7 +1283,7 @@ func c12Configs(r *mc.R) []*c12Config {
 				if len(pl) > 0 {
 					out = append(out, &c12Config{v: v, prepop: m, stale: pl, weight: missing})
 				}
-				if m == 0 && len(pl) > 1 {
+				if m == 0 && len(pl) > 1 && full {
 					for _, p := range pl {
 						out = append(out, &c12Config{v: v, prepop: m, stale: [][]byte{p}, weight: missing})
 					}
